@@ -41,7 +41,12 @@ NoChildLeft(o) ==
 \cup (IF o.kids # "" THEN {"child-left:listed"} ELSE {})
 
 \* property layer: set of violated clauses; impl layer: set of drift notes; setup: set of reasons
+\* launcher death inside the callback: the socket closes without an ack; the target must never run
+CrashViol(o) ==
+  (IF o.marker THEN {"ran-after-launcher-death-without-ack"} ELSE {})
+  \cup (IF o.cbobs.exe_is = "target" THEN {"execed-after-launcher-death-without-ack"} ELSE {})
 Viol(o) ==
+  IF o.crash # "" THEN CrashViol(o) ELSE
   CbClauses(o) \cup
   (CASE o.fail = "none" /\ o.cb = "ok" ->
           (IF o.opt.sync /\ o.started /\ o.cbobs.called = 0 THEN {"ran-without-callback"} ELSE {})
@@ -65,10 +70,12 @@ Viol(o) ==
           \cup (IF o.started /\ o.exit \in {"none", "exit:0"} /\ ~o.marker THEN {"failed-child-not-ended:" \o o.exit} ELSE {}))
 
 Drift(o) ==
+  IF o.crash # "" THEN (IF o.orphan # "gone" THEN {"orphan-still-alive-after-launcher-death:" \o o.orphan} ELSE {}) ELSE
   (IF o.fail # "none" /\ Reported(o.opt, F(o)) /\ ~AfterSync(o) /\ o.cbobs.called # 0 THEN {"callback-ran-although-failure-precedes-sync"} ELSE {})
   \cup (IF o.fail # "none" /\ ~Reported(o.opt, F(o)) /\ ~o.started THEN {"early-return-mode-reported-an-error"} ELSE {})
 
 Setup(o) ==
+  IF o.crash # "" THEN (IF o.setup # "" THEN {o.setup} ELSE IF o.cbobs.called = 0 THEN {"helper launcher never reached its callback"} ELSE {}) ELSE
   (IF o.setup # "" THEN {o.setup} ELSE {})
   \cup (IF ~o.started /\ o.err.errno \in TransientErrno /\ o.err.loc # LocOf(o.fail) THEN {"resource shortage: " \o o.err.msg} ELSE {})
   \cup (IF o.fail = "none" /\ o.cb = "ok" /\ ((~o.started /\ ~o.marker) \/ (o.started /\ (~o.report \/ ~o.marker)))
